@@ -562,9 +562,11 @@ def replay(pid, path, repo, build):
         print(json.dumps(info, indent=1))
         print('REPRODUCED' if rep else 'not reproduced')
         return 1 if rep else 0
-    if str(rec.get('obligation', '')).startswith('ground/C20/lines/'):
+    gob = rec.get('obligation', '')
+    if isinstance(w, dict) and w.get('ground_obligation'): gob = w['ground_obligation']
+    if str(gob).startswith('ground/C20/lines/'):
         for ok, info in g_c20_lines(repo):
-            if info['obligation'] == rec['obligation']:
+            if info['obligation'] == gob:
                 print('frame %s' % info['frame_hex']); print('reply: %s' % info['reply'])
                 for l in info['lines']: print('  | ' + l)
                 print('violated: %s' % info.get('violated'))
